@@ -175,9 +175,14 @@ func check(c Case) evid.Outcome {
 var selDict = []string{"-->", "-->input", " --> -->a", "a-->b", "--", "a-url(b)", "my_url(x)", "-x-image-url(", "xurl(", "a-url(b) url(x'){}*{color:red}')", "aurl(b) URL(x\"){}p{}z{\"y)", " url(", "url (", "u\\72l(",
 	"a", "div", ".c", "#id", "*", " ", ">", "+", "~", ",", ":hover", "::before", ":not(", ")", "(", "[", "]", "[href", "=", "^=", "$=", "|=", "\"", "'", "\"x\"", "'y'", "\"{\"", "'}'", "\"]\"", "\")\"", "\"\\\"\"", "'\\''", "\\", "\\\n", "\\\r\n", "\\\f", "url(", "URL(", "Url( ", "url(x", "url(\"", "url('", "url(x\")", "url(\"x\")", "expression(", "var(", "{", "}", ";", "@", "@media", "@import", "/*", "*/", "//", "<", "<!--", "-->", "</style>", "\n", "\r", "\f", "\t", "\x00", "é", "--x", "-", "_", "$", "^", "|", "!", "&", "%", "a[href=\"x\"]", "a:not(.b)", "input[value^=a]", "){}", "{}", "z{", "\"){}input[value^=a]{background:url(//evil/a)}z{\"", "y)"}
 
+var bracketDict = []string{"(", ")", "[", "]", ":not(", ":is(", "[a=", "a", ".b", " ", ",", "\"]\"", "')'", "\"(\"", "'['", "\\(", "\\]"}
+
 func gen(t *rapid.T) Case {
 	var c Case
-	switch rapid.IntRange(0, 3).Draw(t, "kind") {
+	switch rapid.IntRange(0, 4).Draw(t, "kind") {
+	case 4:
+		// bracket structure: few kinds of pieces, so that nesting, crossing and unbalanced sequences are all frequent
+		c.Selector = evid.BStr(strs.From(8, bracketDict).Draw(t, "sel"))
 	case 0:
 		c.Selector = evid.BStr(strs.From(8, selDict).Draw(t, "sel"))
 	case 1:
@@ -214,6 +219,7 @@ func FuzzRule(f *testing.F) {
 	f.Add("url(x\"){}input[value^=a]{background:url(//evil/a)}z{\"y)")
 	f.Add("a[href=\"x\"]:not(.b)")
 	f.Add("a[b='\\\n']")
+	f.Add("p:is(.x, [y='z')] q")
 	f.Fuzz(func(t *testing.T, sel string) {
 		c := Case{Selector: evid.BStr(sel), Color: "red"}
 		if o := check(c); o.Violation != "" && !(o.Finding != "" && evid.IsKnown(o.Finding)) {
